@@ -25,7 +25,11 @@ fn reachable(reg: &PortableRegistry, id: u32) -> BTreeSet<u32> {
         let Some(t) = reg.resolve(i) else { continue };
         match &t.type_def {
             TypeDef::Composite(c) => stack.extend(c.fields.iter().map(|f| f.ty.id)),
-            TypeDef::Variant(v) => stack.extend(v.variants.iter().flat_map(|v| v.fields.iter().map(|f| f.ty.id))),
+            TypeDef::Variant(v) => stack.extend(
+                v.variants
+                    .iter()
+                    .flat_map(|v| v.fields.iter().map(|f| f.ty.id)),
+            ),
             TypeDef::Sequence(s) => stack.push(s.type_param.id),
             TypeDef::Array(a) => stack.push(a.type_param.id),
             TypeDef::Tuple(t) => stack.extend(t.fields.iter().map(|f| f.id)),
@@ -39,7 +43,11 @@ fn reachable(reg: &PortableRegistry, id: u32) -> BTreeSet<u32> {
 fn successors_of(reg: &PortableRegistry, i: u32) -> Vec<u32> {
     match reg.resolve(i).map(|t| &t.type_def) {
         Some(TypeDef::Composite(c)) => c.fields.iter().map(|f| f.ty.id).collect(),
-        Some(TypeDef::Variant(v)) => v.variants.iter().flat_map(|v| v.fields.iter().map(|f| f.ty.id)).collect(),
+        Some(TypeDef::Variant(v)) => v
+            .variants
+            .iter()
+            .flat_map(|v| v.fields.iter().map(|f| f.ty.id))
+            .collect(),
         Some(TypeDef::Sequence(s)) => vec![s.type_param.id],
         Some(TypeDef::Array(a)) => vec![a.type_param.id],
         Some(TypeDef::Tuple(t)) => t.fields.iter().map(|f| f.id).collect(),
@@ -89,14 +97,17 @@ fn compact_ok(reg: &PortableRegistry, ids: &BTreeSet<u32>) -> bool {
                     | scale_info::TypeDefPrimitive::U64
                     | scale_info::TypeDefPrimitive::U128
             ),
-            Some(TypeDef::Composite(c)) if c.fields.len() == 1 => ok_inner(reg, c.fields[0].ty.id, depth + 1),
+            Some(TypeDef::Composite(c)) if c.fields.len() == 1 => {
+                ok_inner(reg, c.fields[0].ty.id, depth + 1)
+            }
             _ => false,
         }
     }
-    ids.iter().all(|i| match reg.resolve(*i).map(|t| &t.type_def) {
-        Some(TypeDef::Compact(c)) => ok_inner(reg, c.type_param.id, 0),
-        _ => true,
-    })
+    ids.iter()
+        .all(|i| match reg.resolve(*i).map(|t| &t.type_def) {
+            Some(TypeDef::Compact(c)) => ok_inner(reg, c.type_param.id, 0),
+            _ => true,
+        })
 }
 
 /// names of the variants occurring in a value (for coverage)
@@ -117,7 +128,13 @@ fn variants_in(v: &scale_value::Value<()>, out: &mut BTreeSet<String>) {
     }
 }
 
-pub fn check_registry(reg: &PortableRegistry, ids: &[u32], seeds: u64, replay: &dyn Fn(u32, u64) -> Json, ctx: &mut Ctx) {
+pub fn check_registry(
+    reg: &PortableRegistry,
+    ids: &[u32],
+    seeds: u64,
+    replay: &dyn Fn(u32, u64) -> Json,
+    ctx: &mut Ctx,
+) {
     let mut variants_seen: BTreeSet<(u32, String)> = BTreeSet::new();
     for &id in ids {
         let reach = reachable(reg, id);
@@ -152,7 +169,14 @@ pub fn check_registry(reg: &PortableRegistry, ids: &[u32], seeds: u64, replay: &
                     }
                     ctx.outcome(&("err", must_be_ok));
                     if !matches!(r2, Ok(Err(_))) {
-                        ctx.violation("C12/nondeterministic", format!("id {id} seed {seed}: Err once, something else the second time"), replay(id, seed), size);
+                        ctx.violation(
+                            "C12/nondeterministic",
+                            format!(
+                                "id {id} seed {seed}: Err once, something else the second time"
+                            ),
+                            replay(id, seed),
+                            size,
+                        );
                     }
                     continue;
                 }
@@ -175,7 +199,14 @@ pub fn check_registry(reg: &PortableRegistry, ids: &[u32], seeds: u64, replay: &
             let mut bytes = vec![];
             match guarded(|| scale_value::scale::encode_as_type(&v, id, reg, &mut bytes)) {
                 Err(p) => {
-                    ctx.violation("C12/encode-panic", format!("encode_as_type panics for the example of id {id} seed {seed}: {p}"), replay(id, seed), size);
+                    ctx.violation(
+                        "C12/encode-panic",
+                        format!(
+                            "encode_as_type panics for the example of id {id} seed {seed}: {p}"
+                        ),
+                        replay(id, seed),
+                        size,
+                    );
                     continue;
                 }
                 Ok(Err(e)) => {
@@ -193,13 +224,19 @@ pub fn check_registry(reg: &PortableRegistry, ids: &[u32], seeds: u64, replay: &
                         .unwrap_or_else(|| crate::checks::c01::reg_kind(reg, id));
                     fn has_char(v: &scale_value::Value<()>) -> bool {
                         match &v.value {
-                            scale_value::ValueDef::Primitive(scale_value::Primitive::Char(_)) => true,
+                            scale_value::ValueDef::Primitive(scale_value::Primitive::Char(_)) => {
+                                true
+                            }
                             scale_value::ValueDef::Composite(c) => c.values().any(has_char),
                             scale_value::ValueDef::Variant(x) => x.values.values().any(has_char),
                             _ => false,
                         }
                     }
-                    let at = if has_char(&v) { "value-contains-char".to_string() } else { format!("at:{at}") };
+                    let at = if has_char(&v) {
+                        "value-contains-char".to_string()
+                    } else {
+                        format!("at:{at}")
+                    };
                     ctx.violation(
                         format!("C12/does-not-encode/{at}"),
                         format!("example of id {id} (seed {seed}) = {} does not encode as that type: {e}", truncate(&format!("{v}"), 200)),
@@ -212,7 +249,12 @@ pub fn check_registry(reg: &PortableRegistry, ids: &[u32], seeds: u64, replay: &
             }
             let mut cursor = &bytes[..];
             match guarded(|| scale_value::scale::decode_as_type(&mut cursor, id, reg)) {
-                Err(p) => ctx.violation("C12/decode-panic", format!("decode panics: {p}"), replay(id, seed), size),
+                Err(p) => ctx.violation(
+                    "C12/decode-panic",
+                    format!("decode panics: {p}"),
+                    replay(id, seed),
+                    size,
+                ),
                 Ok(Err(e)) => ctx.violation(
                     "C12/does-not-decode",
                     format!("bytes of the example of id {id} (seed {seed}) do not decode: {e}"),
@@ -223,7 +265,10 @@ pub fn check_registry(reg: &PortableRegistry, ids: &[u32], seeds: u64, replay: &
                     if !cursor.is_empty() {
                         ctx.violation(
                             "C12/trailing-bytes",
-                            format!("decoding the example of id {id} (seed {seed}) leaves {} bytes", cursor.len()),
+                            format!(
+                                "decoding the example of id {id} (seed {seed}) leaves {} bytes",
+                                cursor.len()
+                            ),
                             replay(id, seed),
                             size,
                         );
@@ -258,9 +303,11 @@ pub fn check_registry(reg: &PortableRegistry, ids: &[u32], seeds: u64, replay: &
         .filter(|(id, n)| matches!(reg.resolve(*id).map(|t| &t.type_def), Some(TypeDef::Variant(v)) if v.variants.iter().any(|x| x.name == *n)))
         .count() as u64;
     ctx.note("enum variants in the explored ids (total)", total);
-    ctx.note("enum variants produced at least once as the top-level example of their enum", direct.min(total));
+    ctx.note(
+        "enum variants produced at least once as the top-level example of their enum",
+        direct.min(total),
+    );
 }
-
 
 /// "Start from a non-initial state": the registry of the previous state of this worker is overwritten IN PLACE
 /// by the current one (same `&PortableRegistry` address, different content), and every call on it must give
@@ -270,7 +317,10 @@ pub struct PrevSlot {
     pub reg: Option<Box<PortableRegistry>>,
     pub prev_state: Option<Json>,
 }
-pub static PREV: std::sync::Mutex<PrevSlot> = std::sync::Mutex::new(PrevSlot { reg: None, prev_state: None });
+pub static PREV: std::sync::Mutex<PrevSlot> = std::sync::Mutex::new(PrevSlot {
+    reg: None,
+    prev_state: None,
+});
 
 pub fn same_address_clause<T: PartialEq + std::fmt::Debug>(
     prop: &str,
@@ -318,7 +368,13 @@ pub fn worker_check(state: &Json, ctx: &mut Ctx) {
         let lo = range[0].as_u64().unwrap_or(0) as u32;
         let hi = range[1].as_u64().unwrap_or(0) as u32;
         let ids: Vec<u32> = (lo..hi).collect();
-        check_registry(&reg, &ids, seeds, &|id, seed| json!({"check": "C12", "state": {"polkadot": [id, id + 1], "seeds": seed + 1}}), ctx);
+        check_registry(
+            &reg,
+            &ids,
+            seeds,
+            &|id, seed| json!({"check": "C12", "state": {"polkadot": [id, id + 1], "seeds": seed + 1}}),
+            ctx,
+        );
     } else {
         let prog: Program = serde_json::from_value(state["prog"].clone()).expect("program");
         let reg = elaborate(&prog).registry;
@@ -336,7 +392,13 @@ pub fn worker_check(state: &Json, ctx: &mut Ctx) {
             state,
             &reg,
             seeds,
-            &|id, r, seed| guarded(|| scale_value_from_seed(id, r, seed).map(|v| v.to_string()).map_err(|e| format!("{e}"))),
+            &|id, r, seed| {
+                guarded(|| {
+                    scale_value_from_seed(id, r, seed)
+                        .map(|v| v.to_string())
+                        .map_err(|e| format!("{e}"))
+                })
+            },
             ctx,
         );
     }
@@ -347,7 +409,10 @@ pub fn js(v: Json) -> String {
     serde_json::to_string(&v).unwrap()
 }
 
-pub fn description_states(thorough: bool, seeds: u64) -> (Vec<String>, Vec<(String, u64, u64, bool)>) {
+pub fn description_states(
+    thorough: bool,
+    seeds: u64,
+) -> (Vec<String>, Vec<(String, u64, u64, bool)>) {
     let mut states = vec![];
     let mut info = vec![];
     // D-graph
@@ -355,7 +420,9 @@ pub fn description_states(thorough: bool, seeds: u64) -> (Vec<String>, Vec<(Stri
     let (all, tr, complete) = enumerate(&g, g.max_edges as u32, 3_000_000);
     info.push((g.name(), all.len() as u64, tr, complete));
     for (_, s) in &all {
-        states.push(js(json!({"prog": serde_json::to_value(s.program()).unwrap(), "seeds": seeds})));
+        states.push(js(
+            json!({"prog": serde_json::to_value(s.program()).unwrap(), "seeds": seeds}),
+        ));
     }
     // D-arms at the named-variant and root positions
     let a = DArms { max_depth: 2 };
@@ -383,14 +450,25 @@ pub fn description_states(thorough: bool, seeds: u64) -> (Vec<String>, Vec<(Stri
                     &[],
                     vec![
                         variant("Leaf", Fields::Unit),
-                        variant("Node", Fields::Unnamed((0..k).map(|_| Field::new(wrap(Ty::Named(0, vec![])))).collect())),
+                        variant(
+                            "Node",
+                            Fields::Unnamed(
+                                (0..k)
+                                    .map(|_| Field::new(wrap(Ty::Named(0, vec![]))))
+                                    .collect(),
+                            ),
+                        ),
                     ],
                 );
                 let forest = Def::strukt(
                     &["g", "t"],
                     "Forest",
                     &[],
-                    Fields::Named((0..r).map(|i| (format!("t{i}"), Field::new(Ty::Named(0, vec![])))).collect()),
+                    Fields::Named(
+                        (0..r)
+                            .map(|i| (format!("t{i}"), Field::new(Ty::Named(0, vec![]))))
+                            .collect(),
+                    ),
                 );
                 let prog = Program {
                     defs: vec![tree, forest],
@@ -408,24 +486,66 @@ pub fn description_states(thorough: bool, seeds: u64) -> (Vec<String>, Vec<(Stri
             Label::Boxed => Ty::Box(b(t)),
             _ => Ty::Vec(b(t)),
         };
-        let onion1 = Def::enm(&["g", "t"], "Onion", &[], vec![variant("Layer", Fields::Unnamed(vec![Field::new(wrap(Ty::Named(0, vec![])))]))]);
+        let onion1 = Def::enm(
+            &["g", "t"],
+            "Onion",
+            &[],
+            vec![variant(
+                "Layer",
+                Fields::Unnamed(vec![Field::new(wrap(Ty::Named(0, vec![])))]),
+            )],
+        );
         let onion2 = Def::enm(
             &["g", "t"],
             "Onion",
             &[],
             vec![
-                variant("Layer", Fields::Unnamed(vec![Field::new(wrap(Ty::Named(0, vec![])))])),
-                variant("Pair", Fields::Named(vec![("l".into(), Field::new(wrap(Ty::Named(0, vec![])))), ("r".into(), Field::new(wrap(Ty::Named(0, vec![]))))])),
+                variant(
+                    "Layer",
+                    Fields::Unnamed(vec![Field::new(wrap(Ty::Named(0, vec![])))]),
+                ),
+                variant(
+                    "Pair",
+                    Fields::Named(vec![
+                        ("l".into(), Field::new(wrap(Ty::Named(0, vec![])))),
+                        ("r".into(), Field::new(wrap(Ty::Named(0, vec![])))),
+                    ]),
+                ),
             ],
         );
-        let ping = Def::enm(&["g", "t"], "Ping", &[], vec![variant("Many", Fields::Unnamed(vec![Field::new(wrap(Ty::Named(1, vec![])))]))]);
-        let pong = Def::enm(&["g", "t"], "Pong", &[], vec![variant("Back", Fields::Unnamed(vec![Field::new(Ty::Tuple(vec![U8, wrap(Ty::Named(0, vec![]))]))]))]);
-        for defs in [vec![onion1.clone()], vec![onion2.clone()], vec![ping.clone(), pong.clone()]] {
+        let ping = Def::enm(
+            &["g", "t"],
+            "Ping",
+            &[],
+            vec![variant(
+                "Many",
+                Fields::Unnamed(vec![Field::new(wrap(Ty::Named(1, vec![])))]),
+            )],
+        );
+        let pong = Def::enm(
+            &["g", "t"],
+            "Pong",
+            &[],
+            vec![variant(
+                "Back",
+                Fields::Unnamed(vec![Field::new(Ty::Tuple(vec![
+                    U8,
+                    wrap(Ty::Named(0, vec![])),
+                ]))]),
+            )],
+        );
+        for defs in [
+            vec![onion1.clone()],
+            vec![onion2.clone()],
+            vec![ping.clone(), pong.clone()],
+        ] {
             let prog = Program {
                 defs,
                 roots: vec![Ty::Named(0, vec![])],
             };
-            states.push(js(json!({"prog": serde_json::to_value(prog).unwrap(), "seeds": seeds})));
+            states.push(js(
+                json!({"prog": serde_json::to_value(prog).unwrap(), "seeds": seeds}),
+            ));
             rec += 1;
         }
     }
@@ -435,12 +555,33 @@ pub fn description_states(thorough: bool, seeds: u64) -> (Vec<String>, Vec<(Stri
     let mut same = 0u64;
     {
         let bodies: Vec<(Vec<&str>, Body)> = vec![
-            (vec!["T"], Body::Struct(named(vec![("weight", Ty::Param(0))]))),
-            (vec!["T"], Body::Struct(named(vec![("weight", U32), ("m", Ty::Phantom(b(Ty::Param(0))))]))),
+            (
+                vec!["T"],
+                Body::Struct(named(vec![("weight", Ty::Param(0))])),
+            ),
+            (
+                vec!["T"],
+                Body::Struct(named(vec![
+                    ("weight", U32),
+                    ("m", Ty::Phantom(b(Ty::Param(0)))),
+                ])),
+            ),
             (vec![], Body::Struct(named(vec![("weight", U8)]))),
-            (vec!["T"], Body::Enum(vec![variant("A", Fields::Unnamed(vec![Field::new(Ty::Param(0))])), variant("B", Fields::Unit)])),
+            (
+                vec!["T"],
+                Body::Enum(vec![
+                    variant("A", Fields::Unnamed(vec![Field::new(Ty::Param(0))])),
+                    variant("B", Fields::Unit),
+                ]),
+            ),
             (vec!["T"], Body::Struct(unnamed(vec![Ty::Param(0)]))),
-            (vec!["T", "U"], Body::Struct(named(vec![("a", Ty::Param(0)), ("m", Ty::Phantom(b(Ty::Param(1))))]))),
+            (
+                vec!["T", "U"],
+                Body::Struct(named(vec![
+                    ("a", Ty::Param(0)),
+                    ("m", Ty::Phantom(b(Ty::Param(1)))),
+                ])),
+            ),
         ];
         let args = |n: usize| -> Vec<Ty> { [U8, U16][..n].to_vec() };
         for (i, (pa, ba)) in bodies.iter().enumerate() {
@@ -468,7 +609,9 @@ pub fn description_states(thorough: bool, seeds: u64) -> (Vec<String>, Vec<(Stri
                     defs: vec![left, right, host],
                     roots: vec![Ty::Named(2, vec![])],
                 };
-                states.push(js(json!({"prog": serde_json::to_value(prog).unwrap(), "seeds": seeds})));
+                states.push(js(
+                    json!({"prog": serde_json::to_value(prog).unwrap(), "seeds": seeds}),
+                ));
                 same += 1;
             }
         }
@@ -481,16 +624,25 @@ pub fn description_states(thorough: bool, seeds: u64) -> (Vec<String>, Vec<(Stri
             defs: vec![],
             roots: vec![Ty::Array(b(Ty::Array(b(Ty::Prim(p)), 32)), 32)],
         };
-        states.push(js(json!({"prog": serde_json::to_value(prog).unwrap(), "seeds": seeds})));
+        states.push(js(
+            json!({"prog": serde_json::to_value(prog).unwrap(), "seeds": seeds}),
+        ));
         width += 1;
     }
-    info.push(("D-width(1024 values of each integer kind per seed)".into(), width, width, true));
+    info.push((
+        "D-width(1024 values of each integer kind per seed)".into(),
+        width,
+        width,
+        true,
+    ));
     // D-chain
     let n = crate::run::polkadot_registry().types.len() as u64;
     let step = 16;
     let mut lo = 0;
     while lo < n {
-        states.push(js(json!({"polkadot": [lo, (lo + step).min(n)], "seeds": seeds})));
+        states.push(js(
+            json!({"polkadot": [lo, (lo + step).min(n)], "seeds": seeds}),
+        ));
         lo += step;
     }
     info.push(("D-chain(polkadot, every id)".into(), n, n, true));
@@ -505,7 +657,10 @@ pub fn run(tier: &str, seed: u64) -> i32 {
     let mut st = isolated_sweep(
         &format!(
             "{} x every id x seeds 0..{seeds} (worker subprocesses)",
-            info.iter().map(|i| i.0.clone()).collect::<Vec<_>>().join(" + ")
+            info.iter()
+                .map(|i| i.0.clone())
+                .collect::<Vec<_>>()
+                .join(" + ")
         ),
         "C12",
         &states,
@@ -520,10 +675,15 @@ pub fn run(tier: &str, seed: u64) -> i32 {
         st.cap_hit = Some("state cap hit while enumerating a driver".into());
     }
     report.add(st);
-    report.extra.insert("seed_range".into(), json!(format!("0..{seeds}")));
+    report
+        .extra
+        .insert("seed_range".into(), json!(format!("0..{seeds}")));
     report.extra.insert(
         "drivers_enumerated".into(),
-        json!(info.iter().map(|i| json!({"driver": i.0, "states": i.1, "transitions": i.2, "complete": i.3})).collect::<Vec<_>>()),
+        json!(info
+            .iter()
+            .map(|i| json!({"driver": i.0, "states": i.1, "transitions": i.2, "complete": i.3}))
+            .collect::<Vec<_>>()),
     );
     report.assumptions = vec![
         format!("seeds are an explicit input, enumerated over 0..{seeds}; the variant coverage reached inside that range is reported in the notes"),
